@@ -205,7 +205,8 @@ func TestC18Wire(t *testing.T) {
 			p := pktSpec{Kind: uint8(rapid.IntRange(1, 7).Draw(t, "kind")), Split: rapid.SampledFrom([]int{0, 1, 5, 100, -1, 65536}).Draw(t, "split"), Stream: rapid.SampledFrom([]int{0, 0, 0, 1, 3}).Draw(t, "stream")}
 			switch rapid.IntRange(0, 9).Draw(t, "sz") {
 			case 0:
-				p.Size = rapid.SampledFrom([]int{65535, 65536, 65537, 200000, 300000}).Draw(t, "big")
+				// (4 MiB is the default packet limit of both versions' readers: exactly the limit is legal)
+				p.Size = rapid.SampledFrom([]int{65535, 65536, 65537, 200000, 300000, 4 << 20, 4<<20 - 1}).Draw(t, "big")
 			case 1, 2:
 				p.Size = rapid.IntRange(0, 3000).Draw(t, "mid")
 			default:
@@ -223,6 +224,18 @@ func TestC18Wire(t *testing.T) {
 			}
 			return p
 		}), 1, 10).Draw(t, "packets")
+		huge := 0
+		for i := range c.Packets {
+			if c.Packets[i].Size >= 1<<20 {
+				huge++
+				if huge > 1 {
+					c.Packets[i].Size = 300000 // one packet at the limit per case is enough
+				}
+			}
+		}
+		if huge > 0 && c.Chunk > 0 && c.Chunk < 4096 {
+			c.Chunk = 4096 // reading 4 MiB a byte at a time only costs time
+		}
 		return c
 	}
 	pbt.Check(t, pbt.Prop[wireCase]{ID: "C18", Name: "wire", Gen: gen, Run: runWire})
